@@ -531,6 +531,16 @@ def run(ctx):
         ctx.broke("translator", "transpose source not recognised", str(ex))
         ctx.note("source not recognised (%s): running the correspondence against the specification only" % ex)
         cfg = None
+    # drift trigger: the parts of the transposition sources the parser above does not read (stores, loads, loops) are
+    # hand-modelled; a token-level difference from the text the model was written against widens the search to the thorough
+    # grid (plus the literal-guided shapes) and is reported as broken - not by itself a violation
+    drift = lib.source_drift("transpose", ["cfavml-gemm/src/transpose/mod.rs", "cfavml-gemm/src/transpose/impl_avx2.rs"])
+    search_tier = ctx.tier
+    if drift:
+        ctx.broke("translator", "transposition sources differ from the text Model/Transpose.v was written against "
+                                "(corpus/fingerprints.json): searching the thorough shape grid", drift)
+        search_tier = "thorough"
+    ctx.extra["source_drift"] = drift
     std = False
     if cfg:
         std = compare_networks(ctx, cfg)
@@ -565,7 +575,7 @@ def run(ctx):
         return
     avx2_host = m.group(1) == "1"
 
-    cases = gen_cases(ctx.tier, avx2_host)
+    cases = gen_cases(search_tier, avx2_host)
     replay = os.environ.get("VERIF_REPLAY")
     if replay:
         with open(replay) as f:
@@ -576,7 +586,7 @@ def run(ctx):
     lines = [case_line(i, c) for i, c in enumerate(cases)]
 
     # -- the model on every distinct (profile, kind, route, shape, lengths)
-    max_cells = MODEL_MAX_CELLS[ctx.tier]
+    max_cells = MODEL_MAX_CELLS[search_tier]
     terms = {}
     keys = []
     if cfg:
